@@ -3,8 +3,12 @@
    Continuation style: the source is `pre ++ printed ++ rest`, the parser stands at ptr = length pre.
    This is written `at_ bs p (printed ++ rest)` (the bytes from ptr on are ...).  Each lemma says what a
    helper of the parser returns on a printed token and where it leaves ptr, under a side condition on the
-   first byte of `rest`.  No lemma here looks at the recursive knot except the string-literal arm of
-   get_inline_expression.  Shared by RoundTrip.v (C02) and the C04 fragment proofs.                  *)
+   first byte of `rest`.  Contents: positions (at_), the monad (bind_ok ...), blanks and line ends
+   (skip_blank_inline / skip_blank / skip_eol / skip_blank_block), single bytes (take_byte_if / expect_byte),
+   identifiers, number literals, string literals (string_loop, the string arm of get_inline_expression),
+   text slices (get_text_slice_xxx), and placeables with a simple inline expression (simple_inline:
+   get_inline_expression_simple, get_expression_simple, get_placeable_simple).
+   Shared by RoundTrip.v (C02) and SerializerRoundTrip.v (C04).                                       *)
 From FluentV Require Import Base.Bytes Base.Outcome Base.Utf8 Base.Utf8Facts.
 From FluentV Require Import Syntax.Ast Syntax.ParserModel Syntax.Render.
 From Coq Require Import Lia ZifyBool ZifyNat ZifyN.
@@ -782,4 +786,259 @@ Proof.
   intros H Hl. unfold get_text_slice. rewrite (at_not_past _ _ _ H), (at_rest _ _ _ H).
   rewrite (memchr3_stop l 125 t Hl eq_refl), nth_error_app_len.
   change (N.eqb 125 125) with true. reflexivity.
+Qed.
+
+(* ---------------------------------------------------------------------------------------------- *)
+(* placeables with a simple inline expression: "{" blank inline blank "}"                             *)
+
+(* references without call arguments and literals *)
+Definition simple_inline (i : inline) : bool :=
+  match i with
+  | StringLiteral s => wf_string s && starts_char s
+  | NumberLiteral v => wf_number v
+  | VariableReference id => wf_identifier id
+  | MessageReference id None => wf_identifier id
+  | MessageReference id (Some a) => wf_identifier id && wf_identifier a
+  | TermReference id None None => wf_identifier id
+  | _ => false
+  end.
+
+(* their text (no layout choice inside) *)
+Definition inline_text (i : inline) : bytes :=
+  match i with
+  | StringLiteral s => 34%N :: s ++ [34%N]
+  | NumberLiteral v => v
+  | VariableReference id => 36%N :: id
+  | MessageReference id a => id ++ match a with Some x => 46%N :: x | None => [] end
+  | TermReference id _ _ => 45%N :: id
+  | _ => []
+  end.
+
+Lemma bind_get_ptr {B} (f : nat -> M B) p : bind get_ptr f p = f p p.
+Proof. reflexivity. Qed.
+Lemma bind_ret {A B} (a : A) (f : A -> M B) p : bind (ret a) f p = f a p.
+Proof. reflexivity. Qed.
+Lemma bind_advance {B} k (f : unit -> M B) p : bind (advance k) f p = f tt (k + p).
+Proof. reflexivity. Qed.
+Lemma bind_set_ptr {B} q (f : unit -> M B) p : bind (set_ptr q) f p = f tt q.
+Proof. reflexivity. Qed.
+Lemma bind_current_byte {B} bs (f : option N -> M B) p : bind (current_byte bs) f p = f (byte_at bs p) p.
+Proof. reflexivity. Qed.
+Lemma bind_assoc {A B C} (m : M A) (f : A -> M B) (g : B -> M C) p :
+  bind (bind m f) g p = bind m (fun a => bind (f a) g) p.
+Proof. unfold bind. destruct (m p); reflexivity. Qed.
+
+Ltac step H := rewrite (bind_ok _ _ _ _ _ H).
+
+Lemma all_blank_head_ident b2 rest : all_blank b2 ->
+  head_not is_ident_char (b2 ++ 125%N :: rest) /\ starts_char (b2 ++ 125%N :: rest) = true /\
+  head_not (fun x => N.eqb x 46) (b2 ++ 125%N :: rest) /\ head_not not_digit_or_dot (b2 ++ 125%N :: rest) /\
+  head_not (fun x => N.eqb x 40) (b2 ++ 125%N :: rest).
+Proof.
+  unfold all_blank. intros H. destruct b2 as [|b r]; [repeat split; reflexivity|].
+  cbn [app]. rewrite blank_len_cons in H. cbn [length] in H.
+  destruct (N.eqb b c_sp || N.eqb b c_lf) eqn:E1.
+  - apply orb_prop in E1. unfold c_sp, c_lf in E1.
+    assert (Hb : b = 32%N \/ b = 10%N) by (destruct E1 as [E | E]; apply N.eqb_eq in E; auto).
+    destruct Hb as [-> | ->]; repeat split; reflexivity.
+  - destruct (N.eqb b c_cr) eqn:E2; [|discriminate]. apply N.eqb_eq in E2. unfold c_cr in E2. subst b.
+    repeat split; reflexivity.
+Qed.
+
+Lemma no_blank_head_125 rest : no_blank_head (125%N :: rest).
+Proof. reflexivity. Qed.
+
+(* get_call_arguments when no "(" follows the blank *)
+Lemma get_call_arguments_none bs b2 rest p n :
+  all_blank b2 -> at_ bs p (b2 ++ 125%N :: rest) -> 1 <= n ->
+  get_call_arguments bs n p = Ok None (length b2 + p).
+Proof.
+  intros Hb H Hn. destruct n as [|n]; [lia|]. cbn [get_call_arguments].
+  step (skip_blank_blank bs p b2 _ H Hb (no_blank_head_125 rest)).
+  step (take_byte_if_no bs _ 40 _ (at_app _ _ _ _ H) eq_refl). reflexivity.
+Qed.
+
+Lemma skip_blank_none bs p t : at_ bs p t -> no_blank_head t -> skip_blank bs p = Ok tt p.
+Proof. intros H Ht. apply (skip_blank_blank bs p [] t H eq_refl Ht). Qed.
+
+(* the tail of get_expression once ptr stands on the closing brace *)
+Ltac expression_end Hq :=
+  rewrite bind_get_ptr; rewrite (at_is_byte _ _ 45 _ Hq); change (N.eqb 125 45) with false; cbn [negb orb].
+
+Lemma is_identifier_start_at bs p b t :
+  at_ bs p (b :: t) -> is_identifier_start bs p = Ok (is_ascii_alphabetic b) p.
+Proof. intros H. unfold is_identifier_start. rewrite (at_byte _ _ _ _ H). reflexivity. Qed.
+
+(* message references without attribute and term references look for call arguments and thereby skip the
+   blank that follows them *)
+Definition inline_eats_blank (i : inline) : bool :=
+  match i with MessageReference _ None | TermReference _ _ _ => true | _ => false end.
+
+Lemma get_inline_expression_simple bs i b2 rest p n :
+  simple_inline i = true -> all_blank b2 -> at_ bs p (inline_text i ++ b2 ++ 125%N :: rest) ->
+  length (inline_text i) + 2 <= n ->
+  get_inline_expression bs n false p =
+  Ok i (length (inline_text i) + (if inline_eats_blank i then length b2 else 0) + p).
+Proof.
+  intros Hi Hb2 H Hn.
+  destruct (all_blank_head_ident b2 rest Hb2) as (Hh1 & Hh2 & Hh3 & Hh4 & Hh5).
+  destruct i as [s | v | id args | id att | id att args | id | e]; cbn [simple_inline inline_text inline_eats_blank] in *;
+    try discriminate Hi.
+  - (* StringLiteral *)
+    apply andb_prop in Hi as [Hwf Hsc].
+    assert (H' : at_ bs p (34%N :: s ++ 34%N :: b2 ++ 125%N :: rest)).
+    { cbn [app] in H. rewrite <- app_assoc in H. exact H. }
+    rewrite (get_inline_expression_string bs p s _ n false H' Hwf Hsc
+               ltac:(cbn [length] in Hn; rewrite app_length in Hn; cbn [length] in Hn; lia)).
+    f_equal. cbn [length]. rewrite app_length. cbn [length]. lia.
+  - (* NumberLiteral *)
+    destruct n as [|n]; [lia|].
+    pose proof (wf_number_shape v Hi) as Hshape.
+    assert (Hnum : get_number_literal bs p = Ok v (length v + p))
+      by (apply (get_number_literal_shape bs p v _ H Hshape Hh4 Hh2)).
+    cbn [get_inline_expression]. rewrite bind_current_byte.
+    destruct Hshape as [neg ip f Hi1 Hi2 Hf].
+    destruct ip as [|d ip]; [congruence|]. cbn [forallb] in Hi2. apply andb_prop in Hi2 as [Hd _].
+    destruct neg.
+    + assert (H0 : at_ bs p (45%N :: d :: ip ++ match f with Some fd => 46%N :: fd | None => [] end ++ b2 ++ 125%N :: rest)).
+      { cbn [app] in H. rewrite <- !app_assoc in H. exact H. }
+      rewrite (at_byte _ _ _ _ H0). change (N.eqb 45 34) with false. change (is_ascii_digit 45) with false.
+      change (N.eqb 45 45 && negb false) with true. cbv iota.
+      rewrite bind_advance. change (1 + p) with (S p).
+      step (is_identifier_start_at bs _ d _ (at_cons _ _ _ _ H0)).
+      replace (is_ascii_alphabetic d) with false
+        by (unfold is_ascii_digit, is_ascii_alphabetic, in_rng in *; lia).
+      rewrite (bind_ok (retreat 1) _ (S p) tt p) by (unfold retreat; cbn [Nat.leb]; f_equal; lia).
+      step Hnum. unfold ret. f_equal. lia.
+    + assert (H0 : at_ bs p (d :: ip ++ match f with Some fd => 46%N :: fd | None => [] end ++ b2 ++ 125%N :: rest)).
+      { cbn [app] in H. rewrite <- !app_assoc in H. exact H. }
+      rewrite (at_byte _ _ _ _ H0).
+      replace (N.eqb d 34) with false by (unfold is_ascii_digit, in_rng in Hd; lia).
+      rewrite Hd. step Hnum. unfold ret. f_equal. lia.
+  - (* MessageReference *)
+    destruct n as [|[|n]]; [lia | cbn [length] in Hn; destruct id; cbn [length] in Hn; lia |].
+    assert (Hid : wf_identifier id = true) by (destruct att; [apply andb_prop in Hi as [Hi _]|]; exact Hi).
+    destruct (id) as [|b r] eqn:Eid; [discriminate|].
+    cbn [wf_identifier] in Hid. apply andb_prop in Hid as [Hb Hr]. rewrite is_alpha_eq in Hb.
+    cbn [get_inline_expression]. rewrite bind_current_byte.
+    assert (H0 : at_ bs p (b :: r ++ match att with Some x => 46%N :: x | None => [] end ++ b2 ++ 125%N :: rest)).
+    { cbn [app] in H. rewrite <- !app_assoc in H. exact H. }
+    rewrite (at_byte _ _ _ _ H0).
+    replace (N.eqb b 34) with false by (unfold is_ascii_alphabetic, in_rng in Hb; lia).
+    replace (is_ascii_digit b) with false by (unfold is_ascii_digit, is_ascii_alphabetic, in_rng in *; lia).
+    replace (N.eqb b 45) with false by (unfold is_ascii_alphabetic, in_rng in Hb; lia).
+    replace (N.eqb b 36) with false by (unfold is_ascii_alphabetic, in_rng in Hb; lia).
+    cbn [andb]. rewrite Hb. rewrite bind_advance. change (1 + p) with (S p).
+    destruct att as [a|].
+    + apply andb_prop in Hi as [_ Ha].
+      assert (H0' : at_ bs p ((b :: r) ++ 46%N :: a ++ b2 ++ 125%N :: rest)).
+      { cbn [app] in H0 |- *. exact H0. }
+      assert (Hidu : get_identifier_unchecked bs (S p) = Ok (b :: r) (length (b :: r) + p)).
+      { exact (get_identifier_unchecked_ok bs p b r (46%N :: a ++ b2 ++ 125%N :: rest) H0' (alpha_not_cont _ Hb) Hr
+                 eq_refl eq_refl). }
+      step Hidu.
+      assert (H1 : at_ bs (length (b :: r) + p) (46%N :: a ++ b2 ++ 125%N :: rest)) by apply (at_app _ _ _ _ H0').
+      assert (Hca : get_call_arguments bs (S n) (length (b :: r) + p) = Ok None (length (b :: r) + p)).
+      { cbn [get_call_arguments].
+        step (skip_blank_none bs _ _ H1 ltac:(reflexivity)).
+        step (take_byte_if_no bs _ 40 _ H1 eq_refl). reflexivity. }
+      step Hca. unfold get_attribute_accessor.
+      rewrite bind_assoc. step (take_byte_if_yes bs _ 46 _ H1).
+      rewrite bind_assoc. step (get_identifier_ok bs _ a _ (at_cons _ _ _ _ H1) Ha Hh1 Hh2). rewrite !bind_ret.
+      unfold ret. f_equal. rewrite !app_length. cbn [length]. lia.
+    + assert (Hidu : get_identifier_unchecked bs (S p) = Ok (b :: r) (length (b :: r) + p)).
+      { exact (get_identifier_unchecked_ok bs p b r (b2 ++ 125%N :: rest) H0 (alpha_not_cont _ Hb) Hr Hh1 Hh2). }
+      step Hidu.
+      assert (H1 : at_ bs (length (b :: r) + p) (b2 ++ 125%N :: rest)).
+      { cbn [app] in H0. apply (at_app bs p (b :: r) _ H0). }
+      step (get_call_arguments_none bs b2 rest _ (S n) Hb2 H1 ltac:(lia)).
+      pose proof (at_app _ _ _ _ H1) as H2.
+      unfold get_attribute_accessor.
+      rewrite bind_assoc. step (take_byte_if_no bs _ 46 _ H2 eq_refl). rewrite !bind_ret.
+      unfold ret. f_equal. rewrite app_nil_r. lia.
+  - (* TermReference id None None *)
+    destruct n as [|[|n]]; [lia | cbn [length] in Hn; lia |].
+    destruct att; [discriminate|]. destruct args; [discriminate|].
+    destruct (id) as [|b r] eqn:Eid; [discriminate|].
+    cbn [wf_identifier] in Hi. apply andb_prop in Hi as [Hb Hr]. rewrite is_alpha_eq in Hb.
+    cbn [get_inline_expression]. rewrite bind_current_byte.
+    assert (H0 : at_ bs p (45%N :: b :: r ++ b2 ++ 125%N :: rest)).
+    { cbn [app] in H. exact H. }
+    rewrite (at_byte _ _ _ _ H0). change (N.eqb 45 34) with false. change (is_ascii_digit 45) with false.
+    change (N.eqb 45 45 && negb false) with true. cbv iota.
+    rewrite bind_advance. change (1 + p) with (S p).
+    step (is_identifier_start_at bs _ b _ (at_cons _ _ _ _ H0)).
+    rewrite Hb. rewrite bind_advance. change (1 + S p) with (S (S p)).
+    assert (Hidu : get_identifier_unchecked bs (S (S p)) = Ok (b :: r) (length (b :: r) + S p)).
+    { exact (get_identifier_unchecked_ok bs (S p) b r (b2 ++ 125%N :: rest) (at_cons _ _ _ _ H0)
+               (alpha_not_cont _ Hb) Hr Hh1 Hh2). }
+    step Hidu.
+    assert (H1 : at_ bs (length (b :: r) + S p) (b2 ++ 125%N :: rest)).
+    { apply (at_app bs (S p) (b :: r) _ (at_cons _ _ _ _ H0)). }
+    unfold get_attribute_accessor.
+    rewrite bind_assoc. step (take_byte_if_no bs _ 46 _ H1 Hh3). rewrite bind_ret.
+    step (get_call_arguments_none bs b2 rest _ (S n) Hb2 H1 ltac:(lia)).
+    unfold ret. f_equal. cbn [length]. lia.
+  - (* VariableReference *)
+    destruct n as [|n]; [lia|].
+    cbn [get_inline_expression]. rewrite bind_current_byte.
+    assert (H0 : at_ bs p (36%N :: id ++ b2 ++ 125%N :: rest)).
+    { cbn [app] in H. exact H. }
+    rewrite (at_byte _ _ _ _ H0). change (N.eqb 36 34) with false. change (is_ascii_digit 36) with false.
+    change (N.eqb 36 45) with false. change (N.eqb 36 36 && negb false) with true. cbn [andb]. cbv iota.
+    rewrite bind_advance. change (1 + p) with (S p).
+    step (get_identifier_ok bs _ id _ (at_cons _ _ _ _ H0) Hi Hh1 Hh2).
+    unfold ret. f_equal. cbn [length]. lia.
+Qed.
+
+(* the expression of a placeable: simple inline, blank, then "}" ; ptr is left on the "}" *)
+Lemma get_expression_simple bs i b2 rest p n :
+  simple_inline i = true -> all_blank b2 -> at_ bs p (inline_text i ++ b2 ++ 125%N :: rest) ->
+  length (inline_text i) + 3 <= n ->
+  get_expression bs n p = Ok (Inline i) (length (inline_text i) + length b2 + p).
+Proof.
+  intros Hi Hb2 H Hn. destruct n as [|n]; [lia|]. cbn [get_expression].
+  step (get_inline_expression_simple bs i b2 rest p n Hi Hb2 H ltac:(lia)).
+  pose proof (at_app _ _ _ _ H) as H1. pose proof (at_app _ _ _ _ H1) as H2.
+  assert (Hskip : skip_blank bs (length (inline_text i) + (if inline_eats_blank i then length b2 else 0) + p) =
+                  Ok tt (length (inline_text i) + length b2 + p)).
+  { destruct (inline_eats_blank i).
+    - replace (length (inline_text i) + length b2 + p) with (length b2 + (length (inline_text i) + p)) by lia.
+      apply (skip_blank_none bs _ _ H2 (no_blank_head_125 rest)).
+    - rewrite Nat.add_0_r.
+      rewrite (skip_blank_blank bs _ b2 _ H1 Hb2 (no_blank_head_125 rest)). f_equal. lia. }
+  step Hskip.
+  replace (length (inline_text i) + length b2 + p) with (length b2 + (length (inline_text i) + p)) by lia.
+  expression_end H2.
+  destruct i as [s | v | id args | id att | id att args | id | e]; try reflexivity; try discriminate Hi.
+  destruct att; [discriminate Hi | reflexivity].
+Qed.
+
+(* the placeable itself, from behind its "{" *)
+Lemma get_placeable_simple bs i b1 b2 rest p n :
+  simple_inline i = true -> all_blank b1 -> all_blank b2 ->
+  at_ bs p (b1 ++ inline_text i ++ b2 ++ 125%N :: rest) ->
+  length (inline_text i) + 4 <= n ->
+  get_placeable bs n p = Ok (Inline i) (S (length b1 + length (inline_text i) + length b2 + p)).
+Proof.
+  intros Hi Hb1 Hb2 H Hn. destruct n as [|n]; [lia|]. cbn [get_placeable].
+  assert (Hhead : no_blank_head (inline_text i ++ b2 ++ 125%N :: rest)).
+  { destruct i as [s | v | id args | id att | id att args | id | e]; cbn [simple_inline inline_text] in *;
+      try discriminate Hi; try reflexivity.
+    - pose proof (wf_number_shape v Hi) as [neg ip f Hi1 Hi2 Hf]. destruct neg; [reflexivity|].
+      destruct ip as [|d ip]; [congruence|]. cbn [forallb] in Hi2. apply andb_prop in Hi2 as [Hd _].
+      cbn [app]. apply no_blank_head_byte; unfold is_ascii_digit, in_rng in Hd; lia.
+    - assert (Hid : wf_identifier id = true) by (destruct att; [apply andb_prop in Hi as [Hi _]|]; exact Hi).
+      destruct id as [|b r]; [discriminate|]. cbn [wf_identifier] in Hid. apply andb_prop in Hid as [Hb _].
+      cbn [app]. apply no_blank_head_byte; unfold is_alpha in Hb; lia. }
+  step (skip_blank_blank bs p b1 _ H Hb1 Hhead).
+  pose proof (at_app _ _ _ _ H) as H1.
+  step (get_expression_simple bs i b2 rest _ n Hi Hb2 H1 ltac:(lia)).
+  pose proof (at_app _ _ _ _ (at_app _ _ _ _ H1)) as H2.
+  replace (length (inline_text i) + length b2 + (length b1 + p)) with (length b2 + (length (inline_text i) + (length b1 + p))) by lia.
+  step (skip_blank_inline_none bs _ _ H2 eq_refl).
+  step (expect_byte_yes bs _ 125 _ H2).
+  destruct i as [s | v | id args | id att | id att args | id | e]; try discriminate Hi;
+    try (unfold ret; f_equal; lia).
+  destruct att; [discriminate Hi |]. unfold ret. f_equal. lia.
 Qed.
